@@ -69,7 +69,8 @@ func c38Binary() (string, error) {
 			}
 			args = append(args, "-modfile="+mf)
 		}
-		args = append(args, "-o", out, "github.com/honeycombio/refinery/tools/convert")
+		// -s -w: smaller image, cheaper to exec once per case; behaviour unchanged
+		args = append(args, "-ldflags=-s -w", "-o", out, "github.com/honeycombio/refinery/tools/convert")
 		cmd := exec.Command(c38GoBin(), args...)
 		cmd.Dir = harness
 		env := []string{}
@@ -100,12 +101,25 @@ type c38Run struct {
 var c38RunSeq int
 var c38RunMu sync.Mutex
 
+// cost accounting (reported in the evidence)
+var c38Stat struct {
+	Converts, Loads       int
+	ConvertTime, LoadTime time.Duration
+}
+
 // c38Convert runs `convert <kind> --input f --output g` on the given text.
 func c38Convert(kind, text, ext string) c38Run {
 	bin, err := c38Binary()
 	if err != nil {
 		panic("C38: " + err.Error())
 	}
+	t0 := time.Now()
+	defer func() {
+		c38RunMu.Lock()
+		c38Stat.Converts++
+		c38Stat.ConvertTime += time.Since(t0)
+		c38RunMu.Unlock()
+	}()
 	c38RunMu.Lock()
 	c38RunSeq++
 	dir := filepath.Join(c38WorkDir, "run"+strconv.Itoa(c38RunSeq))
@@ -119,6 +133,8 @@ func c38Convert(kind, text, ext string) c38Run {
 	}
 	cmd := exec.Command(bin, kind, "--input", in, "--output", out)
 	cmd.Dir = dir
+	// a short-lived single conversion: keep the Go runtime of the child small
+	cmd.Env = append(os.Environ(), "GOMAXPROCS=2", "GOGC=off")
 	var so, se bytes.Buffer
 	cmd.Stdout, cmd.Stderr = &so, &se
 	r := c38Run{}
@@ -161,9 +177,18 @@ type c38Loaded struct {
 	Fatal     string // load failed for another reason (yaml type error, panic, ...)
 }
 
-func (l *c38Loaded) ok() bool { return l.Cfg != nil && len(l.CfgErrs) == 0 && len(l.RulesErrs) == 0 && l.Fatal == "" }
+func (l *c38Loaded) ok() bool {
+	return l.Cfg != nil && len(l.CfgErrs) == 0 && len(l.RulesErrs) == 0 && l.Fatal == ""
+}
 
 func c38LoadV2(cfgYAML, rulesYAML string) (res c38Loaded) {
+	t0 := time.Now()
+	defer func() {
+		c38RunMu.Lock()
+		c38Stat.Loads++
+		c38Stat.LoadTime += time.Since(t0)
+		c38RunMu.Unlock()
+	}()
 	c38RunMu.Lock()
 	c38RunSeq++
 	dir := filepath.Join(c38WorkDir, "load"+strconv.Itoa(c38RunSeq))
@@ -209,25 +234,25 @@ func c38LoadV2(cfgYAML, rulesYAML string) (res c38Loaded) {
 // ---------------------------------------------------------------- effective v2 values
 
 var c38Single = map[string]func(config.Config) any{
-	"Network.ListenAddr":                      func(c config.Config) any { return c.GetListenAddr() },
-	"Network.PeerListenAddr":                  func(c config.Config) any { return c.GetPeerListenAddr() },
-	"Network.HoneycombAPI":                    func(c config.Config) any { return c.GetHoneycombAPI() },
-	"Network.HTTPIdleTimeout":                 func(c config.Config) any { return c.GetHTTPIdleTimeout() },
-	"Network.AdditionalHeaders":               func(c config.Config) any { return c.GetAdditionalHeaders() },
+	"Network.ListenAddr":                       func(c config.Config) any { return c.GetListenAddr() },
+	"Network.PeerListenAddr":                   func(c config.Config) any { return c.GetPeerListenAddr() },
+	"Network.HoneycombAPI":                     func(c config.Config) any { return c.GetHoneycombAPI() },
+	"Network.HTTPIdleTimeout":                  func(c config.Config) any { return c.GetHTTPIdleTimeout() },
+	"Network.AdditionalHeaders":                func(c config.Config) any { return c.GetAdditionalHeaders() },
 	"RefineryTelemetry.AddRuleReasonToTrace":   func(c config.Config) any { return c.GetAddRuleReasonToTrace() },
 	"RefineryTelemetry.AddSpanCountToRoot":     func(c config.Config) any { return c.GetAddSpanCountToRoot() },
 	"RefineryTelemetry.AddCountsToRoot":        func(c config.Config) any { return c.GetAddCountsToRoot() },
 	"RefineryTelemetry.AddHostMetadataToTrace": func(c config.Config) any { return c.GetAddHostMetadataToTrace() },
-	"Debugging.DebugServiceAddr":              func(c config.Config) any { return c.GetDebugServiceAddr() },
-	"Debugging.QueryAuthToken":                func(c config.Config) any { return c.GetQueryAuthToken() },
-	"Debugging.AdditionalErrorFields":         func(c config.Config) any { return c.GetAdditionalErrorFields() },
-	"Debugging.DryRun":                        func(c config.Config) any { return c.GetIsDryRun() },
-	"Logger.Type":                             func(c config.Config) any { return c.GetLoggerType() },
-	"Logger.Level":                            func(c config.Config) any { return c.GetLoggerLevel().String() },
-	"PeerManagement.Type":                     func(c config.Config) any { return c.GetPeerManagementType() },
-	"PeerManagement.Peers":                    func(c config.Config) any { return c.GetPeers() },
-	"PeerManagement.Identifier":               func(c config.Config) any { return c.GetRedisIdentifier() },
-	"PeerManagement.IdentifierInterfaceName":  func(c config.Config) any { return c.GetIdentifierInterfaceName() },
+	"Debugging.DebugServiceAddr":               func(c config.Config) any { return c.GetDebugServiceAddr() },
+	"Debugging.QueryAuthToken":                 func(c config.Config) any { return c.GetQueryAuthToken() },
+	"Debugging.AdditionalErrorFields":          func(c config.Config) any { return c.GetAdditionalErrorFields() },
+	"Debugging.DryRun":                         func(c config.Config) any { return c.GetIsDryRun() },
+	"Logger.Type":                              func(c config.Config) any { return c.GetLoggerType() },
+	"Logger.Level":                             func(c config.Config) any { return c.GetLoggerLevel().String() },
+	"PeerManagement.Type":                      func(c config.Config) any { return c.GetPeerManagementType() },
+	"PeerManagement.Peers":                     func(c config.Config) any { return c.GetPeers() },
+	"PeerManagement.Identifier":                func(c config.Config) any { return c.GetRedisIdentifier() },
+	"PeerManagement.IdentifierInterfaceName":   func(c config.Config) any { return c.GetIdentifierInterfaceName() },
 	"PeerManagement.UseIPV6Identifier": func(c config.Config) any {
 		if g, ok := c.(interface{ GetUseIPV6Identifier() bool }); ok {
 			return g.GetUseIPV6Identifier()
@@ -367,7 +392,11 @@ func c38CondExpected(c c38Cond, v c38Val) (bool, bool) {
 
 var c38ReAlnum = regexp.MustCompile(`^[A-Za-z0-9]+$`)
 
-// c38StrClass classifies a string by what YAML makes of it when written as a plain scalar.
+// c38StrClass classifies a string by what YAML makes of it when written as a
+// plain (unquoted) scalar: plain / punct round-trip; scalarlike is an
+// alphanumeric string that reads back as a number, bool or null; needsquote-*
+// says what an unquoted rendering turns into (a sequence, a map, null, another
+// value, or a parse error).
 func c38StrClass(s string) string {
 	if s == "*" {
 		return "star"
@@ -382,12 +411,24 @@ func c38StrClass(s string) string {
 		return "scalarlike" // 12345, true, null, 1e5: a plain scalar of another type
 	case roundTrips:
 		return "punct"
-	default:
-		return "needsquote"
+	case err != nil || len(back) != 1:
+		return "needsquote-error"
 	}
+	switch back[0].(type) {
+	case []any:
+		return "needsquote-seq"
+	case map[string]any:
+		return "needsquote-map"
+	case nil:
+		return "needsquote-null"
+	case string:
+		return "needsquote-altered"
+	}
+	return "needsquote-retyped"
 }
 
-var c38ClassRank = map[string]int{"plain": 0, "punct": 1, "scalarlike": 2, "needsquote": 3, "star": 4}
+var c38ClassRank = map[string]int{"plain": 0, "punct": 1, "scalarlike": 2, "needsquote-altered": 3, "needsquote-retyped": 4, "needsquote-null": 5,
+	"needsquote-map": 6, "needsquote-seq": 7, "needsquote-error": 8, "star": 9}
 
 func c38ValClass(s *c38Setting, v c38Val) string {
 	switch v.K {
@@ -452,6 +493,23 @@ type c38PipeResult struct {
 }
 
 var c38ReYAMLLine = regexp.MustCompile(`line (\d+)`)
+var c38ReDeprecated = regexp.MustCompile(`(?m)^# - (\S+) \(deprecated in`)
+var c38ReTmplErr = regexp.MustCompile(`at <(\w+) \.Data "([^"]*)" "([^"]*)"`)
+
+// c38SamePath compares a v1 path as the converter prints it (alias groups "A/B.X") with ours.
+func c38SamePath(printed, ours string) bool {
+	if printed == ours {
+		return true
+	}
+	if i := strings.Index(printed, "."); i > 0 {
+		for _, a := range strings.Split(printed[:i], "/") {
+			if a+printed[i:] == ours {
+				return true
+			}
+		}
+	}
+	return false
+}
 
 func c38ConfigPipeline(tab *c38Table, format string, sets []c38Set) c38PipeResult {
 	doc := c38ConfigDoc(tab, sets)
@@ -571,7 +629,13 @@ func execC38Config(c c38Case, res *vkit.Result) {
 			res.Class("has-removed-setting")
 			continue
 		}
-		nonDefault++
+		if s.V2Group == "" {
+			nonDefault++
+		} else if b, ok := c38Effective(c38Baseline(), s.V2Group, s.V2Key); !ok || !reflect.DeepEqual(b, c38Expected(s, st.Val)) {
+			nonDefault++
+		} else {
+			res.Class("value-equals-v2-default")
+		}
 		if s.Renamed {
 			renamed = true
 		}
@@ -608,7 +672,8 @@ func execC38Config(c c38Case, res *vkit.Result) {
 	}
 
 	compared := false
-	for iter := 0; iter < 8 && len(remaining) > 0; iter++ {
+	lastHinted, lastVerdict := false, ""
+	for iter := 0; iter < 10 && len(remaining) > 0; iter++ {
 		pr := c38ConfigPipeline(tab, c.Format, remaining)
 		if pr.Verdict == "" {
 			c38CompareConfig(tab, c, remaining, pr.Loaded.Cfg, res)
@@ -616,6 +681,7 @@ func execC38Config(c c38Case, res *vkit.Result) {
 			break
 		}
 		res.Class("pipeline-" + pr.Verdict)
+		hintedNow := false
 		culprits := map[string]bool{}
 		byPath := map[string]c38Set{}
 		for _, st := range remaining {
@@ -629,6 +695,48 @@ func execC38Config(c c38Case, res *vkit.Result) {
 			st := byPath[path]
 			s := tab.ByPath[path]
 			res.Violate(sig(s, st.Val, verdict), "v1 %s = %s (%s input, template helper %s -> %s.%s): %s", path, st.Val, c.Format, c38HelperName(s), s.V2Group, s.V2Key, detail)
+		}
+		blameAll := func(found map[string]c38PipeResult) {
+			var paths []string
+			for p := range found {
+				paths = append(paths, p)
+			}
+			sort.Strings(paths)
+			for _, p := range paths {
+				blame(p, found[p].Verdict, found[p].Detail)
+			}
+		}
+		// attribute a whole-document failure: a single remaining setting is the culprit by
+		// construction; otherwise trust the hint taken from the converter's own output once,
+		// and fall back to running every candidate alone when hints did not help last time.
+		attribute := func(pr c38PipeResult, hinted []c38Set) {
+			switch {
+			case len(remaining) == 1:
+				blame(remaining[0].Path, pr.Verdict, pr.Detail)
+			case len(hinted) > 0 && !(lastHinted && lastVerdict == pr.Verdict):
+				for _, st := range hinted {
+					blame(st.Path, pr.Verdict, pr.Detail)
+				}
+				hintedNow = true
+			default:
+				var first, rest []c38Set
+				for _, st := range remaining {
+					s := tab.ByPath[st.Path]
+					if s.Removed || s.Type == "map" {
+						first = append(first, st)
+					} else {
+						rest = append(rest, st)
+					}
+				}
+				found := isolate(first)
+				if len(found) == 0 {
+					found = isolate(rest)
+				}
+				blameAll(found)
+			}
+			if len(culprits) == 0 {
+				res.Violate(fmt.Sprintf("C38/config/%s/unattributed/%s", c.Format, pr.Verdict), "%s (no single setting reproduces it)", pr.Detail)
+			}
 		}
 		switch pr.Verdict {
 		case "v2-load-error":
@@ -653,10 +761,11 @@ func execC38Config(c c38Case, res *vkit.Result) {
 					unattributed = append(unattributed, m)
 				}
 			}
+			if len(culprits) == 0 && len(remaining) == 1 {
+				blame(remaining[0].Path, pr.Verdict, pr.Detail)
+			}
 			if len(culprits) == 0 {
-				for p, ipr := range isolate(remaining) {
-					blame(p, ipr.Verdict, ipr.Detail)
-				}
+				blameAll(isolate(remaining))
 			}
 			if len(culprits) == 0 {
 				res.Violate(fmt.Sprintf("C38/config/%s/unattributed/v2-load-error", c.Format), "the v2 loader rejects the converted file and no single setting reproduces it: %s", strings.Join(unattributed, "; "))
@@ -671,40 +780,34 @@ func execC38Config(c c38Case, res *vkit.Result) {
 					}
 				}
 			}
-			found := isolate(hinted)
-			if len(found) == 0 {
-				found = isolate(remaining)
-			}
-			for p, ipr := range found {
-				blame(p, ipr.Verdict, ipr.Detail)
-			}
-			if len(culprits) == 0 {
-				res.Violate(fmt.Sprintf("C38/config/%s/unattributed/output-not-yaml", c.Format), "%s (no single setting reproduces it)", pr.Detail)
-			}
-		default: // converter-failed, template-not-rendered: try removed settings first
-			var first, rest []c38Set
-			for _, st := range remaining {
-				s := tab.ByPath[st.Path]
-				if s.Removed || s.Type == "map" {
-					first = append(first, st)
-				} else {
-					rest = append(rest, st)
+			attribute(pr, hinted)
+		case "template-not-rendered":
+			// the output names what it threw away: "# - <v1 path> (deprecated in ...)"
+			var hinted []c38Set
+			for _, m := range c38ReDeprecated.FindAllStringSubmatch(pr.Run.Out, -1) {
+				for _, st := range remaining {
+					if c38SamePath(m[1], st.Path) {
+						hinted = append(hinted, st)
+					}
 				}
 			}
-			found := isolate(first)
-			if len(found) == 0 {
-				found = isolate(rest)
+			attribute(pr, hinted)
+		default: // converter-failed: the template error names the helper call
+			var hinted []c38Set
+			if m := c38ReTmplErr.FindStringSubmatch(pr.Run.Stderr); m != nil {
+				for _, st := range remaining {
+					s := tab.ByPath[st.Path]
+					if s.TmplV1 == m[3] && s.Helper == m[1] {
+						hinted = append(hinted, st)
+					}
+				}
 			}
-			for p, ipr := range found {
-				blame(p, ipr.Verdict, ipr.Detail)
-			}
-			if len(culprits) == 0 {
-				res.Violate(fmt.Sprintf("C38/config/%s/unattributed/%s", c.Format, pr.Verdict), "%s (no single setting reproduces it)", pr.Detail)
-			}
+			attribute(pr, hinted)
 		}
 		if len(culprits) == 0 {
 			break
 		}
+		lastHinted, lastVerdict = hintedNow, pr.Verdict
 		drop(culprits)
 	}
 	if compared {
